@@ -34,7 +34,9 @@ theorem lookup_foreign (custom : List (String × CVal)) (env : Env) (px k : Stri
   rw [hk]
   cases custom.lookup k <;> rfl
 
-/-- **precedence** — for every name the object does not have of its own, every code dict and environment:
+/-- **precedence** — for every name the object does not have of its own (`ownNames`: its methods, properties and
+    instance attributes and everything every Python object has — the `__…__` names of `object`; the module's own
+    `__name__`, `__file__` … are module attributes, `moduleOtherNames`), every code dict and environment:
     (1) a code value other than `None` wins; (2) else the `deep.config` module attribute (env-backed default);
     (3) else `DEEP_<name>` from the environment; (4) else absent.  Callables of levels 1–2 are called. -/
 theorem c19_precedence (custom : List (String × CVal)) (env : Env) (px k : String)
@@ -353,17 +355,49 @@ theorem c19_exclude_list_flat (env : Env) (px : String) :
       · simp [CVal.isNone, CVal.strIn, hc, splitStr_no_sep s hc, CVal.append]
   exact ⟨h1, by rw [h1]; exact strList_map _⟩
 
-/-- **the interval may be text** — an interval given as text (as the environment does) is used like the number
-    it spells; holds because `RepeatedTimer` coerces with `float()` (`timerCoercesWithFloat`, read from the source). -/
+/-- tripwire: an interval given as integer text (as the environment does) is the number it spells; holds because
+    `RepeatedTimer` coerces with `float()` (`timerCoercesWithFloat`, read from the source). -/
 theorem c19_poll_interval_text (s : String) (n : Int) (h : Py.parseInt s = some n) :
     pollInterval (CVal.str s) = pollInterval (CVal.int n) := by
-  simp [pollInterval, timerCoercesWithFloat, h]
+  simp [pollInterval, timerCoercesWithFloat, parseDecimal, h]
 
-/-- POLL_TIMER=10 in code and DEEP_POLL_TIMER="10" in the environment give the same interval, and the default is 10 -/
+/-- **POLL_TIMER: native value = its text** — a float given in code and its text (the form the environment gives)
+    are the same interval, for every float; likewise ints and integer texts (`c19_poll_interval_text`). -/
+theorem c19_poll_interval_float_text (r : String) :
+    pollInterval (CVal.float r) = pollInterval (CVal.str r) := by
+  simp [pollInterval, timerCoercesWithFloat]
+
+/-- POLL_TIMER=10 in code and DEEP_POLL_TIMER="10" in the environment give the same interval, the default is 10,
+    fractional texts and numbers and `True` are read as `float()` reads them -/
 theorem c19_poll_timer_env_eq_code :
-    pollInterval ((World.mk [] [("DEEP_POLL_TIMER", "10")] "/px").get "POLL_TIMER") = some 10 ∧
-    pollInterval ((World.mk [("POLL_TIMER", CVal.int 10)] [] "/px").get "POLL_TIMER") = some 10 ∧
-    pollInterval ((World.mk [] [] "/px").get "POLL_TIMER") = some 10 := by decide
+    pollInterval ((World.mk [] [("DEEP_POLL_TIMER", "10")] "/px").get "POLL_TIMER") = some ⟨10, 0⟩ ∧
+    pollInterval ((World.mk [("POLL_TIMER", CVal.int 10)] [] "/px").get "POLL_TIMER") = some ⟨10, 0⟩ ∧
+    pollInterval ((World.mk [] [] "/px").get "POLL_TIMER") = some ⟨10, 0⟩ ∧
+    pollInterval (CVal.str "10.5") = some ⟨105, 1⟩ ∧ pollInterval (CVal.float "2.5") = some ⟨25, 1⟩ ∧
+    pollInterval (CVal.str " 0.05 ") = some ⟨5, 2⟩ ∧ pollInterval (CVal.bool true) = some ⟨1, 0⟩ ∧
+    pollInterval (CVal.str "abc") = none := by decide
+
+/-- **boolean settings: native value = its text** (SERVICE_SECURE, PLUGIN_<NAME>) — a value given in code whose
+    text is `t` (a bool, a number, None, or text) is read by `str2bool` exactly like the text `t` the environment
+    would give; holds because `str2bool` converts with `str()` first (`str2boolCoercesWithStr`, read from the
+    source: without it `SERVICE_SECURE=False` in code raises AttributeError out of `Deep.start`). -/
+theorem c19_bool_setting_native_eq_text (v : CVal) (t : String) (h : pyStr v = some t) :
+    str2bool v = str2bool (CVal.str t) := by
+  cases v <;> simp [pyStr] at h <;> simp [str2bool, str2boolCoercesWithStr, pyStr, h]
+
+/-- … through the configuration: SERVICE_SECURE as the bool False in code, as the text 'False' in code and as
+    DEEP_SERVICE_SECURE=False all choose the insecure channel; True/'true'/1 and the default the secure one; a plugin
+    is switched off by False as well as by 'False'. -/
+theorem c19_service_secure_forms :
+    (World.mk [("SERVICE_SECURE", CVal.bool false)] [] "/px").secure = some false ∧
+    (World.mk [("SERVICE_SECURE", CVal.str "False")] [] "/px").secure = some false ∧
+    (World.mk [] [("DEEP_SERVICE_SECURE", "False")] "/px").secure = some false ∧
+    (World.mk [("SERVICE_SECURE", CVal.bool true)] [] "/px").secure = some true ∧
+    (World.mk [("SERVICE_SECURE", CVal.int 1)] [] "/px").secure = some true ∧
+    (World.mk [] [] "/px").secure = some true ∧
+    (World.mk [("PLUGIN_X", CVal.bool false)] [] "/px").pluginActive "X" = some false ∧
+    (World.mk [] [("DEEP_PLUGIN_X", "False")] "/px").pluginActive "X" = some false ∧
+    (World.mk [] [] "/px").pluginActive "X" = some true := by decide
 
 /-- **known finding D30** (`C19/include-string-in-code`): the documented comma separated *text* given in code is
     iterated character by character — `"/"` then matches every absolute path — while the same text in the
@@ -373,6 +407,41 @@ theorem c19_include_string_in_code_witness :
       = some (true, some "/") ∧
     (World.mk [("APP_ROOT", CVal.str "/app")] [("DEEP_IN_APP_INCLUDE", "/x,/y")] "/px").appFrame "/lib/z.py"
       = some (false, none) := by decide
+
+/-- **IN_APP_INCLUDE: a list in code = the comma separated text in the environment** — for every text `t`, the
+    list of its comma separated parts given in code and `DEEP_IN_APP_INCLUDE=t` are iterated as the same prefixes. -/
+theorem c19_include_code_list_eq_env (t : String) (custom : List (String × CVal)) (env : Env) (px : String)
+    (hc : custom.lookup "IN_APP_INCLUDE" = none) :
+    pathList (lookup (("IN_APP_INCLUDE", CVal.list ((splitStr ',' t).map CVal.str)) :: custom) env px "IN_APP_INCLUDE")
+      = some (splitStr ',' t) ∧
+    pathList (lookup custom (("DEEP_IN_APP_INCLUDE", t) :: env) px "IN_APP_INCLUDE") = some (splitStr ',' t) := by
+  constructor
+  · rw [(c19_precedence _ env px "IN_APP_INCLUDE" (by decide)).1
+      (CVal.list ((splitStr ',' t).map CVal.str)) (by simp [List.lookup]) rfl]
+    exact strList_map _
+  · rw [((c19_precedence custom _ px "IN_APP_INCLUDE" (by decide)).2 (Or.inl hc)).1
+      (CVal.callable (fn_IN_APP_INCLUDE (("DEEP_IN_APP_INCLUDE", t) :: env) px)) (by rfl)]
+    have := (c19_include_list_flat (("DEEP_IN_APP_INCLUDE", t) :: env) px).2
+    simpa [callIt, envList, List.lookup] using this
+
+/-- **IN_APP_EXCLUDE: the environment form has one prefix more** — the same parts given as a list in code are
+    used as given, while `DEEP_IN_APP_EXCLUDE=t` yields them FOLLOWED BY the interpreter prefix (`sys.exec_prefix`,
+    appended by deep.config only on this route).  Disclosed asymmetry between the two ways of giving this setting
+    (finding candidate `C19/exclude-list-in-code-without-interpreter-prefix`, replayed on the implementation). -/
+theorem c19_exclude_env_appends_interpreter_prefix (t : String) (custom : List (String × CVal)) (env : Env)
+    (px : String) (hc : custom.lookup "IN_APP_EXCLUDE" = none) :
+    pathList (lookup (("IN_APP_EXCLUDE", CVal.list ((splitStr ',' t).map CVal.str)) :: custom) env px "IN_APP_EXCLUDE")
+      = some (splitStr ',' t) ∧
+    pathList (lookup custom (("DEEP_IN_APP_EXCLUDE", t) :: env) px "IN_APP_EXCLUDE")
+      = some (splitStr ',' t ++ [px]) := by
+  constructor
+  · rw [(c19_precedence _ env px "IN_APP_EXCLUDE" (by decide)).1
+      (CVal.list ((splitStr ',' t).map CVal.str)) (by simp [List.lookup]) rfl]
+    exact strList_map _
+  · rw [((c19_precedence custom _ px "IN_APP_EXCLUDE" (by decide)).2 (Or.inl hc)).1
+      (CVal.callable (fn_IN_APP_EXCLUDE (("DEEP_IN_APP_EXCLUDE", t) :: env) px)) (by rfl)]
+    have := (c19_exclude_list_flat (("DEEP_IN_APP_EXCLUDE", t) :: env) px).2
+    simpa [callIt, envList, List.lookup] using this
 
 /-- **application frames from the environment** — with no include/exclude given in code, `is_app_frame` tests the
     comma separated prefixes of DEEP_IN_APP_INCLUDE, and those of DEEP_IN_APP_EXCLUDE followed by the interpreter
